@@ -376,18 +376,17 @@ def handle : Handler
           else match parseTree ts with
             | none => "BAD enc tree"
             | some ij =>
-              if showJ ij != showJ mj then s!"DIFF model={showJ mj}"
-              else
-                -- round trip and canonical acceptance are the property itself
-                let want := showField (f.read k)
-                let got (s : String) : Option String := match parseObs s with
-                  | some (.ok _ g) => some (showField (g.read k))
-                  | _ => none
-                if got rts != some want then s!"VIOL roundtrip got={rts} want={want}"
-                else if got cds != some want then s!"VIOL canonical-not-accepted got={cds} want={want}"
-                else match decode ops o c k mj with
-                  | .ok g => if showField (g.read k) == want then s!"OK nt b=enc.{kt}" else s!"DIFF model-roundtrip={showField g}"
-                  | r => s!"DIFF model-roundtrip={resTag r}"
+              -- round trip and canonical acceptance are the property itself: judged before the model comparison
+              let want := showField (f.read k)
+              let got (s : String) : Option String := match parseObs s with
+                | some (.ok _ g) => some (showField (g.read k))
+                | _ => none
+              if got rts != some want then s!"VIOL roundtrip got={rts} want={want} text={showJ ij}"
+              else if got cds != some want then s!"VIOL canonical-not-accepted got={cds} want={want}"
+              else if showJ ij != showJ mj then s!"DIFF model={showJ mj}"
+              else match decode ops o c k mj with
+                | .ok g => if showField (g.read k) == want then s!"OK nt b=enc.{kt}" else s!"DIFF model-roundtrip={showField g}"
+                | r => s!"DIFF model-roundtrip={resTag r}"
         | .err => s!"DIFF model-encode=ERR impl={ts}"
         | .panic => s!"DIFF model-encode=PANIC impl={ts}"
     | _, _, _, _, _ => "BAD enc fields"
